@@ -1003,7 +1003,11 @@ func perturb(rng *rand.Rand, c precCase) precCase {
 	return c
 }
 
-var precCorpus = []struct{ ctx, line, expect, out string; skip int; legal bool }{
+var precCorpus = []struct {
+	ctx, line, expect, out string
+	skip                   int
+	legal                  bool
+}{
 	// left associativity per level
 	{"decl", "x := 10 - 4 - 3", `(bin MINUS (bin MINUS (num "10") (num "4")) (num "3"))`, "3\n", 2, true},
 	{"decl", "x := 16 / 4 / 2", `(bin SLASH (bin SLASH (num "16") (num "4")) (num "2"))`, "2\n", 2, true},
